@@ -564,7 +564,7 @@ func selfTest() {
 		}
 	}()
 	n := 0
-	clo := func() int { n++; return n } // heap closure (captures n)
+	clo := func() int { n++; return n }               // heap closure (captures n)
 	wantP := *(*unsafe.Pointer)(unsafe.Pointer(&clo)) // the closure object
 	want := uintptr(wantP)
 	stat := selfStatic
@@ -572,7 +572,7 @@ func selfTest() {
 	var boxed interface{} = selfT{f: clo, g: selfStatic} // non-addressable, indirect
 	bv := reflect.ValueOf(boxed)
 	pv := reflect.ValueOf(&selfT{f: clo, g: selfStatic}).Elem() // addressable
-	var direct interface{} = clo                               // func stored directly in an interface
+	var direct interface{} = clo                                // func stored directly in an interface
 	ok := rawFuncAddr(bv.Field(0)) == want && rawFuncAddr(pv.Field(0)) == want &&
 		rawFuncAddr(reflect.ValueOf(direct)) == want &&
 		rawFuncAddr(bv.Field(1)) == wantStatic && rawFuncAddr(pv.Field(1)) == wantStatic
